@@ -348,6 +348,10 @@ func FieldLoadCode(f *FlagData, argName, argTypeName, validate string, defaultVa
 		} else {
 			var checkErr bool
 			code, declErr, checkErr = conversionCode(f.FullName, argName, argTypeName, !f.Required && defaultValue == nil)
+			if !checkErr && validate != "" {
+				// the conversion does not use err but the validation code does
+				declErr = true
+			}
 			if checkErr {
 				code += "\nif err != nil {\n"
 				nilVal := "nil"
